@@ -3,12 +3,14 @@ import NunavutVerif.Proto
 /-!
 Driver for the C14 float correspondence.  One request per line (numbers in hexadecimal, no prefix):
 
-  `pack <x>`                → `pack x` (4 hex digits)            x < 2^32
-  `rne <x>`                 → `packRne x` (4 hex digits)
+  `pack <x>`                → `pack x` (4 hex digits)            x < 2^32     (packer before the F14 repair)
+  `rnec <x>`                → `packRneC x` (4 hex digits)                     (repaired packer)
+  `rne <x>`                 → `packRne x` (4 hex digits)                      (Python target)
   `unpack <h>`              → `unpack h` (8 hex digits)          h < 2^16
   `mul <a> <b>`             → `f32mul a b` (8 hex digits)        a, b finite non-negative patterns
+  `add <a> <b>`             → `f32add a b` (8 hex digits)        a, b finite non-negative patterns
   `sum <fn> <start> <count>`→ 64-bit checksum (16 hex digits) of `fn` over the patterns start .. start+count-1,
-                              fn ∈ {pack, rne, unpack}:  h ← h · 0x100000001B3 + (fn(x) + 1)  (mod 2^64), h₀ = 0xCBF29CE484222325
+                              fn ∈ {pack, rnec, rne, unpack}:  h ← h · 0x100000001B3 + (fn(x) + 1)  (mod 2^64), h₀ = 0xCBF29CE484222325
 -/
 open NunavutVerif NunavutVerif.Float16 NunavutVerif.Proto
 
@@ -37,6 +39,9 @@ def answer (line : String) : String :=
   | ["pack", x] => match parseHex x with
     | some x => if x < 4294967296 then toHex (pack x) 4 else "bad-op"
     | none => "bad-op"
+  | ["rnec", x] => match parseHex x with
+    | some x => if x < 4294967296 then toHex (packRneC x) 4 else "bad-op"
+    | none => "bad-op"
   | ["rne", x] => match parseHex x with
     | some x => if x < 4294967296 then toHex (packRne x) 4 else "bad-op"
     | none => "bad-op"
@@ -46,10 +51,14 @@ def answer (line : String) : String :=
   | ["mul", a, b] => match parseHex a, parseHex b with
     | some a, some b => if a < 2139095040 ∧ b < 2139095040 then toHex (f32mul a b) 8 else "bad-op"
     | _, _ => "bad-op"
+  | ["add", a, b] => match parseHex a, parseHex b with
+    | some a, some b => if a < 2139095040 ∧ b < 2139095040 then toHex (f32add a b) 8 else "bad-op"
+    | _, _ => "bad-op"
   | ["sum", fn, s, c] => match parseHex s, parseHex c with
     | some s, some c =>
       if s + c > 4294967296 then "bad-op"
       else if fn = "pack" then toHex (checksum pack s c).toNat 16
+      else if fn = "rnec" then toHex (checksum packRneC s c).toNat 16
       else if fn = "rne" then toHex (checksum packRne s c).toNat 16
       else if fn = "unpack" then (if s + c ≤ 65536 then toHex (checksum unpack s c).toNat 16 else "bad-op")
       else "bad-op"
